@@ -35,8 +35,12 @@ func TestC04Sequences(t *testing.T) {
 	maxLen := run.Scale(4, 5)
 	var rec func(seq []string)
 	emit := func(seq []string) {
-		for variant := 0; variant < 16; variant++ {
+		for variant := 0; variant < 64; variant++ {
 			async, filter, ctxAware, sameClass := variant&1 != 0, variant&2 != 0, variant&4 != 0, variant&8 != 0
+			seqOpt, loneResub := variant&16 != 0, variant&32 != 0
+			if loneResub && (sameClass || async) {
+				continue
+			}
 			if sameClass && ctxAware {
 				continue // the earlier handler is a plain one: a shared class needs a plain once handler
 			}
@@ -55,7 +59,11 @@ func TestC04Sequences(t *testing.T) {
 			}
 			p := &prog.Program{Types: []int{idx % len(h.Drivers)}}
 			earlier := &prog.Reg{Class: 0}
-			once := &prog.Reg{Class: 1, Once: true, Async: async, Ctx: ctxAware}
+			once := &prog.Reg{Class: 1, Once: true, Async: async, Ctx: ctxAware, Seq: seqOpt}
+			if loneResub {
+				// the once handler is the only subscriber and subscribes a successor from inside its invocation
+				once.Script = [][]prog.Op{{{K: prog.Sub, T: 0, Reg: &prog.Reg{Class: 5}}}}
+			}
 			if ctxAware || sameClass {
 				once.Class = 0 // sameClass: closures of one func literal - same code pointer as the earlier handler
 			}
@@ -71,7 +79,17 @@ func TestC04Sequences(t *testing.T) {
 					earlier.CancelIDs = append(earlier.CancelIDs, id)
 				}
 			}
-			p.Ops = append(p.Ops, prog.Op{K: prog.Sub, T: 0, Reg: earlier}, prog.Op{K: prog.Sub, T: 0, Reg: once}, prog.Op{K: prog.Count, T: 0})
+			hasH := false
+			for _, k := range seq {
+				hasH = hasH || k == "H"
+			}
+			if loneResub && hasH {
+				continue // "cancelled by an earlier handler" needs the earlier handler
+			}
+			if !loneResub {
+				p.Ops = append(p.Ops, prog.Op{K: prog.Sub, T: 0, Reg: earlier})
+			}
+			p.Ops = append(p.Ops, prog.Op{K: prog.Sub, T: 0, Reg: once}, prog.Op{K: prog.Count, T: 0})
 			for _, k := range seq {
 				o := prog.Op{K: prog.Pub, T: 0, UseCtx: true}
 				switch k {
@@ -92,7 +110,7 @@ func TestC04Sequences(t *testing.T) {
 				}
 				nonConsumingFirst = true
 			}
-			run.Case(fmt.Sprintf("%v|a%v f%v c%v s%v", seq, async, filter, ctxAware, sameClass), nonConsumingFirst && len(seq) >= 2)
+			run.Case(fmt.Sprintf("%v|a%v f%v c%v s%v q%v l%v", seq, async, filter, ctxAware, sameClass, seqOpt, loneResub), nonConsumingFirst && len(seq) >= 2)
 			if idx == 4321 {
 				run.Sample(map[string]any{"sequence": seq, "program": p})
 			}
